@@ -78,6 +78,106 @@ def r_get_valid_values(m):
     return dict(observed=sorted(map(str, got)), expected=sorted(map(str, exp)), violates={Fraction(str(g)) for g in got} != exp)
 
 
+def _conds():
+    from program.condition import TrueCond, FalseCond
+    return {True: TrueCond, False: FalseCond}
+
+
+def r_binary_to_arithm(m, cls='Or'):
+    """finite complete replay: all truth combinations of the two sub-conditions (TrueCond/FalseCond children)"""
+    import program.condition as pc
+    C = _conds(); klass = getattr(pc, cls)
+    for b1 in (True, False):
+        for b2 in (True, False):
+            got = klass(C[b1](), C[b2]()).to_arithm(None)
+            exp = int((b1 or b2) if cls == 'Or' else (b1 and b2))
+            if Fraction(str(got)) != exp:
+                return dict(observed=f'{cls}({b1},{b2}).to_arithm = {got}', expected=str(exp), violates=True)
+    return dict(violates=False, detail='all four truth combinations agree natively')
+
+
+def r_or_to_arithm(m): return r_binary_to_arithm(m, 'Or')
+def r_and_to_arithm(m): return r_binary_to_arithm(m, 'And')
+
+
+def r_not_to_arithm(m):
+    from program.condition import Not
+    C = _conds()
+    for b in (True, False):
+        got = Not(C[b]()).to_arithm(None)
+        if Fraction(str(got)) != int(not b): return dict(observed=f'Not({b}).to_arithm = {got}', expected=str(int(not b)), violates=True)
+    return dict(violates=False)
+
+
+def r_binary_evaluate(m, cls='Or'):
+    import program.condition as pc
+    C = _conds(); klass = getattr(pc, cls)
+    for b1 in (True, False):
+        for b2 in (True, False):
+            got = bool(klass(C[b1](), C[b2]()).evaluate({}))
+            exp = (b1 or b2) if cls == 'Or' else (b1 and b2)
+            if got != exp: return dict(observed=f'{cls}({b1},{b2}).evaluate = {got}', expected=str(exp), violates=True)
+    return dict(violates=False)
+
+
+def r_or_evaluate(m): return r_binary_evaluate(m, 'Or')
+def r_and_evaluate(m): return r_binary_evaluate(m, 'And')
+
+
+def r_and_implied(m):
+    """is_implied_by_loop_guard of And(c1, c2) where exactly one conjunct carries the guard mark must be False"""
+    from program.condition import And, Atom
+    for mark1, mark2 in ((True, False), (False, True)):
+        a, b = Atom('g', '==', 1), Atom('c', '==', 1)
+        a.is_loop_guard, b.is_loop_guard = mark1, mark2
+        got = And(a, b).is_implied_by_loop_guard()
+        if got: return dict(observed=f'And(marked={mark1}, marked={mark2}).is_implied_by_loop_guard() = True', expected='False (the unmarked conjunct is not implied by the guard)', violates=True)
+    return dict(violates=False)
+
+
+def r_comb(m):
+    import math
+    from utils import comb
+    n, k = int(m['n']), int(m['k'])
+    if n < 0 or k < 0 or n > 3000: return dict(violates=False, detail='model outside the native domain')
+    got = comb(n, k); exp = math.comb(n, k)
+    return dict(observed=str(got), expected=str(exp), violates=got != exp)
+
+
+def r_bernoulli_moment(m):
+    from program.distribution import Bernoulli
+    k = max(0, int(m['k'])); p = se(m['p'])
+    got = Bernoulli([p]).get_moment(k); exp = 1 if k == 0 else fr(m['p'])
+    return dict(observed=str(got), expected=str(exp), violates=Fraction(str(got)) != exp)
+
+
+def r_uniform_moment(m):
+    from program.distribution import Uniform
+    a, b, k = fr(m['a']), fr(m['b']), max(0, int(m['k']))
+    if a == b: return dict(violates=False, detail='outside precondition')
+    got = Uniform([se(a), se(b)]).get_moment(k)
+    exp = sum(a ** i * b ** (k - i) for i in range(k + 1)) / (k + 1)
+    return dict(observed=str(got), expected=str(exp), violates=Fraction(str(got)) != exp)
+
+
+def r_exponential_moment(m):
+    import math
+    from program.distribution import Exponential
+    l, k = fr(m['lamb']), max(0, int(m['k']))
+    if l == 0 or k > 60: return dict(violates=False, detail='outside precondition')
+    got = Exponential([se(l)]).get_moment(k); exp = Fraction(math.factorial(k)) / l ** k
+    return dict(observed=str(got), expected=str(exp), violates=Fraction(str(got)) != exp)
+
+
+def r_categorical_moment(m):
+    from program.distribution import Categorical
+    ps = [fr(x) for x in m['probabilities']]; k = max(0, int(m['k']))
+    if not ps: return dict(violates=False, detail='outside precondition')
+    d = Categorical.__new__(Categorical); d.probabilities = [se(x) for x in ps]
+    got = d.get_moment(k); exp = sum((Fraction(i) ** k if (i or k) else 1) * p for i, p in enumerate(ps))
+    return dict(observed=str(got), expected=str(exp), violates=Fraction(str(got)) != exp)
+
+
 def main():
     req = json.load(sys.stdin)
     kind = req['replay']['kind']
